@@ -55,7 +55,15 @@ func c18Body(rng *rand.Rand, who int, n int) (string, []c18Member) {
 			if id != "" {
 				idf = `"id":` + id + `,`
 			}
-			parts = append(parts, fmt.Sprintf(`{"jsonrpc":"1.0",%s"method":"m","params":[%q]}`, idf, tag))
+			// the ways a member can be statically invalid: wrong version, a request that also carries
+			// reply members, an unknown member, scalar params
+			parts = append(parts, fmt.Sprintf([]string{
+				`{"jsonrpc":"1.0",%s"method":"m","params":[%q]}`,
+				`{"jsonrpc":"2.0",%s"method":"m","params":[%q],"result":true}`,
+				`{"jsonrpc":"2.0",%s"method":"m","params":[%q],"error":{"code":1,"message":"x"}}`,
+				`{"jsonrpc":"2.0",%s"method":"m","params":[%q],"zz":1}`,
+				`{%s"method":"m","params":[%q]}`,
+			}[rng.Intn(5)], idf, tag))
 		default:
 			id := ids[rng.Intn(len(ids))]
 			ms = append(ms, c18Member{"c", id, tag})
@@ -262,12 +270,20 @@ func TestC18(t *testing.T) {
 		}
 	}
 	// a body that is not valid JSON gets an error status and runs nothing
-	for _, b := range []string{`{bad`, ``, `[1,`, `nope`} {
+	okReq := func(tag string) string { return `{"jsonrpc":"2.0","id":1,"method":"m","params":["` + tag + `"]}` }
+	for i, b := range []string{`{bad`, ``, `[1,`, `nope`,
+		// a complete valid request (or batch) followed by more non-blank bytes is not valid JSON either
+		okReq("bj4") + ` garbage`, okReq("bj5") + okReq("bj5"), `[` + okReq("bj6") + `]]`, okReq("bj7") + `{"jsonrpc":"2.0","id":2,"meth`, okReq("bj8") + "\n" + okReq("bj8"), okReq("bj9") + `,`, `[` + okReq("bj10") + `],[]`} {
 		w := post(b)
 		res.Case("badjson/"+b, true, b)
 		if w.Code < 400 {
 			res.Violatef("a body that is not valid JSON did not get an error status", b, "status %d body %q", w.Code, w.Body.String())
 		}
+		mu.Lock()
+		if n := ran[fmt.Sprintf("bj%d", i)]; n != 0 {
+			res.Violatef("a body that is not valid JSON ran a handler", b, "%d times", n)
+		}
+		mu.Unlock()
 	}
 }
 
